@@ -7,6 +7,7 @@ import (
 	"verif/core"
 
 	"github.com/fluhus/biostuff/align"
+	"github.com/fluhus/biostuff/formats/bed"
 	"github.com/fluhus/biostuff/formats/fasta"
 	"github.com/fluhus/biostuff/formats/fastq"
 	"github.com/fluhus/biostuff/formats/newick"
@@ -32,7 +33,13 @@ func Noise(ctx *core.Ctx, r *core.Rng) {
 	defer func() { recover() }()
 	for n := r.Range(1, 4); n > 0; n-- {
 		seq := r.Bytes(r.Range(0, 60), "ACGTacgtNn")
-		switch r.Intn(10) {
+		switch r.Intn(11) {
+		case 10:
+			for range bed.Reader(bytes.NewReader([]byte("chr1\t0\t100\tn\t5\t+\t0\t100\t1,2,3\t3\t10,20,30\t0,40,70\nchr2\t5\t9\tm\t0\t-\t5\t9\t0,0,0\t2\t1,2\t0,3\n"))) {
+				if r.Chance(0.2) {
+					break
+				}
+			}
 		case 0:
 			sequtil.ReverseComplement(nil, seq)
 		case 1:
